@@ -102,7 +102,11 @@ func checkConverge(cs *Case) (out outcome) {
 				out.violation = fmt.Sprintf("restored replica C panicked applying op %d (%s), A did not: %s", i, o, pc)
 				return
 			}
-			if rc != ra && cs.Mask.MaskConflictErrorChoice && o.K == "createevent" && isDDLConflict(ra) && isDDLConflict(rc) {
+			if rc != ra && o.K == "nodetmpindex" {
+				// not a finding: the answer of UpdateNodeTmpIndexCommand depends on DataNode.Index, replication book-keeping that a
+				// snapshot deliberately does not carry (outside the property's enumeration)
+				out.maskedDiffs["answer-depends-on-node-tmp-index-bookkeeping"]++
+			} else if rc != ra && cs.Mask.MaskConflictErrorChoice && o.K == "createevent" && isDDLConflict(ra) && isDDLConflict(rc) {
 				out.maskedDiffs["ddl-conflict-error-choice-by-map-order"]++
 			} else if rc != ra && cs.Mask.MaskEventPre && o.K == "createevent" {
 				// known class: the restored event carries currState as preState, so "same event again?" is answered differently
@@ -300,6 +304,7 @@ func known(p mg.Profile) mg.Profile {
 	p.NoInitShardsAboveGroupSize = true
 	p.NoExtremeTimes = true
 	p.NoMixedShardType = true
+	p.NoAmbiguousDropSubscription = true
 	return p
 }
 
